@@ -58,7 +58,22 @@ func c09Exec(op string) string {
 	if len(tk) > 0 {
 		mxj.SetGlobalKeyMapPrefix(tk[:1])
 	}
-	mxj.LeafUseDotNotation(dot)
+	// the option is reached through one of three call histories (explicit argument, toggle form
+	// from the default, explicit opposite then toggle), chosen from the case itself
+	switch h := len(op) % 3; {
+	case h == 0:
+		mxj.LeafUseDotNotation(dot)
+	case h == 1 && dot:
+		mxj.LeafUseDotNotation() // default is off
+	case h == 1:
+		mxj.LeafUseDotNotation(true)
+		mxj.LeafUseDotNotation()
+	case dot:
+		mxj.LeafUseDotNotation(false)
+		mxj.LeafUseDotNotation()
+	default:
+		// leave the default
+	}
 	mv := mxj.Map(m)
 	before := deepCopy(m)
 	var ls []mxj.LeafNode
